@@ -239,11 +239,29 @@ def runFb (ws : List String) : String :=
   | .limitExceeded => "limit-exceeded next=1"
   | .streamErr => "stream-err next=0"
 
+/-- `ex=lim total=<n> mem=<n> field=<n|none> ops=<bytes:0|1,…>`: the public `Limits` driven call by
+call, continuing after refusals; output per call `<ok>@<total>,<memory>,<field|->` -/
+def runLimits (ws : List String) : String :=
+  let l0 : Limits := { total := kvNat ws "total" 0, memory := kvNat ws "mem" 0,
+                       field := ((kv ws "field").getD "none").toNat? }
+  let ops := ((kv ws "ops").getD "").splitOn "," |>.filter (· ≠ "")
+  let rec go (l : Limits) : List String → List String
+    | [] => []
+    | op :: rest =>
+      match op.splitOn ":" with
+      | [b, m] =>
+        let (l', ok) := tryConsume l (b.toNat?.getD 0) (m == "1")
+        ((if ok then "1" else "0") ++ "@" ++ toString l'.total ++ "," ++ toString l'.memory ++ "," ++
+          (match l'.field with | some f => toString f | none => "-")) :: go l' rest
+      | _ => go l rest
+  joinWith " " (go l0 ops)
+
 def run (line : String) : String :=
   let ws := words line
   match kv ws "ex" with
   | some "mp" => runMp ws
   | some "fb" => runFb ws
+  | some "lim" => runLimits ws
   | some ex => runStream ws ex
   | none => "bad-case"
 
